@@ -25,3 +25,32 @@ func init() {
 		thorough:      []buildSpec{plain(16)},
 	}
 }
+
+func init() {
+	props["C18"] = propSpec{
+		level: "exploration",
+		rule: "(a) seeded scripts of 1-35 operations over two Sets of the same orderedness (ordered/unordered, synchronized or not, value domain 6-8 to force collisions, delete-then-re-add, delete-absent) " +
+			"checked in lock-step against a map+order-slice model after every operation (Len, Check over the domain, iterator multiset/order, AddCheck/DeleteCheck results, Equal, JSON round trip, Sort*); " +
+			"(b) concurrent histories of a synchronized set (2-4 clients x 3-8 ops over 1-3 keys, GOMAXPROCS 1/2/4/16) recorded at the client boundary and checked with porcupine against the set model " +
+			"(partitioned by key; unpartitioned when Len is in the history). distinct_nontrivial = distinct (orderedness, synchronized, set of >=3 operation kinds) for scripts plus distinct (config) of histories with >=2 overlapping operation pairs",
+		assumptions:   append([]string{"Equal is not compared across ordered/unordered sets (DESIGN 7i)"}, commonAssumptions...),
+		floorEvals:    2000,
+		floorDistinct: 20,
+		quick:         []buildSpec{plain(8)},
+		thorough:      []buildSpec{plain(16)},
+	}
+}
+
+func init() {
+	props["C19"] = propSpec{
+		level: "exploration",
+		rule: "seeded (min,max,sigfigs) shapes (min arbitrary / power of two up to 2^12, max on and around subBucketCount*2^k boundaries, powers of two, up to 2^40, sigfigs 1..5) x multisets that over-sample min, max, " +
+			"powers of two +-1, bucket and sub-bucket boundaries +-1 and heavy duplicates x quantiles {25,50,90,99,99.9,100,random,tiny}; oracle = exact order statistic of a sorted copy. " +
+			"distinct_nontrivial = distinct (sigfigs, bit-length of min, bit-length of max, max-is-power-of-two, size class)",
+		assumptions:   append([]string{"rank of a quantile is computed with the documented rounding round(q/100*N); quantiles of rank 0 are not judged"}, commonAssumptions...),
+		floorEvals:    500,
+		floorDistinct: 20,
+		quick:         []buildSpec{plain(12)},
+		thorough:      []buildSpec{plain(16)},
+	}
+}
